@@ -38,6 +38,7 @@ type Env struct {
 	calleeName string
 	logPrefix string
 	depth     int
+	logSt     *State // state in which call-log components are read (nil: st)
 	goal      bool // the formula is being proved (true) or assumed (false)
 	pol       int  // polarity of the current subformula: +1, -1, 0 (unknown)
 }
@@ -706,7 +707,14 @@ func (vc *FuncVC) evalSlice(env *Env, x *ESlice) *CVal {
 }
 
 func (vc *FuncVC) logGet(env *Env, st *State, label, what, sort string) Term {
-	return st.get(vc.logComp(env.logPrefix, label, what, sort))
+	return env.logState().get(vc.logComp(env.logPrefix, label, what, sort))
+}
+
+func (e *Env) logState() *State {
+	if e.logSt != nil {
+		return e.logSt
+	}
+	return e.st
 }
 
 func (vc *FuncVC) evalCall(env *Env, x *ECall) *CVal {
@@ -749,7 +757,12 @@ func (vc *FuncVC) evalCall(env *Env, x *ECall) *CVal {
 	case "cap":
 		return &CVal{T: T(app("s_cap", arg(0).T), SInt)}
 	case "old":
+		// old(e): e's heap reads happen in the entry state; the call log is ghost
+		// history of the whole call and is always read in the current state
 		n := *env
+		if n.logSt == nil {
+			n.logSt = env.st
+		}
 		n.st = env.old
 		return vc.eval(&n, x.Args[0])
 	case "in":
@@ -799,7 +812,7 @@ func (vc *FuncVC) evalCall(env *Env, x *ECall) *CVal {
 				if _, ok := vc.comps[comp]; !ok {
 					vc.comp(comp, arraySort(SInt, SInt), true)
 				}
-				ref := Select(env.st.get(comp), arg(1).T, SInt)
+				ref := Select(env.logState().get(comp), arg(1).T, SInt)
 				elem := fv.Type().Underlying().(*types.Pointer).Elem()
 				if isStruct(elem) {
 					return &CVal{T: ref, Typ: elem, SRef: true}
@@ -828,7 +841,7 @@ func (vc *FuncVC) evalCall(env *Env, x *ECall) *CVal {
 			panic(fmt.Errorf("argv(%s,…,%d,%d): no such logged variadic element", L, i.V.Int64(), j.V.Int64()))
 		}
 		_, es := arrayParts(sort)
-		return &CVal{T: Select(env.st.get(comp), arg(1).T, es), Typ: vc.logTypes[comp]}
+		return &CVal{T: Select(env.logState().get(comp), arg(1).T, es), Typ: vc.logTypes[comp]}
 	case "recv", "arg", "ret":
 		L := label(0)
 		what := "recv"
@@ -862,7 +875,7 @@ func (vc *FuncVC) evalCall(env *Env, x *ECall) *CVal {
 			}
 		}
 		_, es := arrayParts(sort)
-		return &CVal{T: Select(env.st.get(comp), arg(1).T, es), Typ: vc.logTypes[comp]}
+		return &CVal{T: Select(env.logState().get(comp), arg(1).T, es), Typ: vc.logTypes[comp]}
 	case "outer":
 		if env.loop == nil {
 			panic(fmt.Errorf("outer() outside a loop invariant"))
@@ -899,6 +912,10 @@ func (vc *FuncVC) evalCall(env *Env, x *ECall) *CVal {
 			panic(fmt.Errorf("boxof: struct object"))
 		}
 		return &CVal{T: vc.box(v.T, t)}
+	case "nonnilptr":
+		// nonnilptr(i): the interface value i does not hold a nil pointer
+		pv := vc.declFun("ptrval", []string{SIface}, SInt)
+		return &CVal{T: Not(Eq(T(app(pv, arg(0).T), SInt), IntLit(0)))}
 	case "boxas":
 		// boxas(v, "pkg.Type"): the interface value holding v converted to the named type
 		v := arg(0)
